@@ -607,7 +607,7 @@ def main(a):
         return v.finish()
 
     # --- 1. matrix: every operation kind alone, ALL read kinds enabled except the gated ones
-    cells = single_cells(r, 4 if quick else 30)
+    cells = single_cells(r, 4 if quick else 100)
     mo, progs, outs = run([c for _, c in cells], gated_reads)
     dist["matrix"] = len(cells)
     for (k, c), m, p, o in zip(cells, mo, progs, outs):
@@ -629,7 +629,7 @@ def main(a):
     # (covered by the first dump of every program above)
     # --- 3. random histories over the operation kinds that are not gated
     kinds = [k for k in sorted(OPS) if k not in gated_ops]
-    n = 150 if quick else 6000
+    n = 150 if quick else 40000
     hist = [gen_case(r, kinds, r.range(3, 14), "c_init" not in gated_ops) for _ in range(n)]
     mo, progs, outs = run(hist, gated_reads)
     dist["histories"] = len(hist)
